@@ -166,7 +166,7 @@ func runDispose(r Round) *outcome {
 		if n > 1 {
 			o.failf("C16/dispose/racing-handler-ran-twice", "handler %d added during Close ran %d times", j, n)
 		}
-		if a.returned != 0 && a.returned < firstClose && n != 1 {
+		if a.returned != 0 && a.returned < firstClose && n == 0 {
 			o.failf("C16/dispose/handler-registered-before-close-not-run", "handler %d: AddCleanHandler returned before the first Close began, ran %d times", j, n)
 		}
 		if n == 0 {
